@@ -282,10 +282,11 @@ def bounded_webvtt(ctx, b):
     # nodes of one caption with different layouts -> separate cues with the same times
     la, lb = Layout(origin=Point(Size(10, PCT), Size(10, PCT))), Layout(origin=Point(Size(20, PCT), Size(70, PCT)))
     # (text nodes that all carry a layout; a node without one inherits and is not "a different layout")
-    for seq in itertools.product([la, lb], repeat=4):
+    for seq, with_breaks in [(sq, wb) for sq in itertools.product([la, lb], repeat=4) for wb in (True, False)]:
         nodes = []
         for k, l in enumerate(seq):
-            if nodes:
+            if nodes and (with_breaks or seq[k - 1] == l):
+                # (without breaks: only inside a group, so that the groups' texts do not end in a line break)
                 nodes.append(CaptionNode.create_break(layout_info=l))
             nodes.append(T(f"n{k}", l))
         cs = CaptionSet({"en": CaptionList([Caption(10 ** 6, 2 * 10 ** 6, nodes)])})
@@ -303,7 +304,7 @@ def bounded_webvtt(ctx, b):
             ok = len(cues) == len(groups) and all(cu["start"] == 10 ** 6 and cu["end"] == 2 * 10 ** 6 for cu in cues) \
                 and [[x for x in cu["lines"] if x] for cu in cues] == [g[0] for g in groups]
             return ok, {"cues": [(cu["lines"], cu["settings"]) for cu in cues], "expected": [g[0] for g in groups]}
-        b.guard(("groups", tuple(id(x) for x in seq)), one, sample={"layouts": [repr(x) for x in seq]})
+        b.guard(("groups", tuple(id(x) for x in seq), with_breaks), one, sample={"layouts": [repr(x) for x in seq], "breaks_between_groups": with_breaks})
     # cue settings survive WebVTT -> WebVTT
     for s in ["align:left position:10%", "line:3", "size:50% align:end position:5%,line-left", "vertical:rl"]:
         doc = f"WEBVTT\n\n00:01.000 --> 00:02.000 {s}\nhello\n"
